@@ -1,23 +1,28 @@
-//! Global allocator wrapper: notes heap traffic by library code inside signal handler frames.
+//! Global allocator wrapper: notes heap traffic by library code inside signal handler frames and
+//! records the allocations made during scenario setup (stable names for heap locations).
 use std::alloc::{GlobalAlloc, Layout, System};
 
 pub struct CheckAlloc;
 
 unsafe impl GlobalAlloc for CheckAlloc {
     unsafe fn alloc(&self, l: Layout) -> *mut u8 {
-        crate::sched::note_alloc(0);
-        System.alloc(l)
+        let p = System.alloc(l);
+        crate::sched::note_alloc(0, p as usize, l.size());
+        p
     }
     unsafe fn dealloc(&self, p: *mut u8, l: Layout) {
-        crate::sched::note_alloc(1);
+        crate::sched::note_alloc(1, p as usize, l.size());
         System.dealloc(p, l)
     }
     unsafe fn alloc_zeroed(&self, l: Layout) -> *mut u8 {
-        crate::sched::note_alloc(0);
-        System.alloc_zeroed(l)
+        let p = System.alloc_zeroed(l);
+        crate::sched::note_alloc(0, p as usize, l.size());
+        p
     }
     unsafe fn realloc(&self, p: *mut u8, l: Layout, n: usize) -> *mut u8 {
-        crate::sched::note_alloc(0);
-        System.realloc(p, l, n)
+        crate::sched::note_alloc(1, p as usize, l.size());
+        let q = System.realloc(p, l, n);
+        crate::sched::note_alloc(0, q as usize, n);
+        q
     }
 }
